@@ -194,6 +194,7 @@ func (nullBulk) Set(k, v []byte) error { return nil }
 type stepObs struct {
 	OK bool       `json:"ok"`
 	TS []bool     `json:"ts"`
+	Stale bool    `json:"stale_stamp"` // a graph reported a timestamp it had reported earlier in this history with other content
 	Q  [][][]uint64 `json:"q"`
 }
 
@@ -326,12 +327,20 @@ func lookup1(id string) chan gdbi.ElementLookup {
 	return ch
 }
 
-var filters = [][]string{{}, {"L1"}, {"L2"}}
+var filters = [][]string{{}, {"L1"}, {"L2"}, {"L2", "L1"}} // the last one is not in sorted order
 
 func observeGraphs(db gdbi.GraphDB) [][][]uint64 {
-	ctx := context.Background()
 	out := [][][]uint64{}
 	for g := 1; g <= 2; g++ {
+		out = append(out, observeGraph(db, g)...)
+	}
+	return out
+}
+
+func observeGraph(db gdbi.GraphDB, g int) [][][]uint64 {
+	ctx := context.Background()
+	out := [][][]uint64{}
+	for ; g > 0; g = -1 {
 		gi, err := db.Graph(gName(g))
 		if err != nil {
 			out = append(out, [][]uint64{{0}})
@@ -434,12 +443,31 @@ func execHistory(driver string, hist []gOp) []stepObs {
 		panic(err)
 	}
 	obs := []stepObs{}
+	// what a client that revalidates by timestamp relies on, restarts included: one stamp of a graph, one content
+	seen := map[string]string{}
+	stale := func() bool {
+		bad := false
+		for g := 1; g <= 2; g++ {
+			gi, err := r.db.Graph(gName(g))
+			if err != nil {
+				continue
+			}
+			b, _ := json.Marshal(observeGraph(r.db, g))
+			k := gName(g) + "@" + gi.GetTimestamp()
+			if old, ok := seen[k]; ok && old != string(b) {
+				bad = true
+			}
+			seen[k] = string(b)
+		}
+		return bad
+	}
+	stale()
 	for _, o := range hist {
 		switch o.Op {
 		case "restart":
 			r.close()
 			r.open()
-			obs = append(obs, stepObs{OK: true, TS: []bool{}, Q: observeGraphs(r.db)})
+			obs = append(obs, stepObs{OK: true, TS: []bool{}, Q: observeGraphs(r.db), Stale: stale()})
 		case "crash":
 			r.kv.budget = int64(o.N)
 			r.kv.used = 0
@@ -447,7 +475,7 @@ func execHistory(driver string, hist []gOp) []stepObs {
 			r.kv.budget = -1
 			r.close()
 			r.open()
-			obs = append(obs, stepObs{OK: true, TS: []bool{}, Q: observeGraphs(r.db)})
+			obs = append(obs, stepObs{OK: true, TS: []bool{}, Q: observeGraphs(r.db), Stale: stale()})
 		default:
 			before := tsOf(r.db)
 			ok := r.apply(o)
@@ -456,7 +484,7 @@ func execHistory(driver string, hist []gOp) []stepObs {
 			for i := range before {
 				ch[i] = before[i] != after[i]
 			}
-			obs = append(obs, stepObs{OK: ok, TS: ch, Q: observeGraphs(r.db)})
+			obs = append(obs, stepObs{OK: ok, TS: ch, Q: observeGraphs(r.db), Stale: stale()})
 		}
 	}
 	r.close()
@@ -476,7 +504,7 @@ func obsCoq(o stepObs) string {
 		}
 		qs[i] = coq.List(items)
 	}
-	return coq.Record("so_ok", coq.Bool(o.OK), "so_ts", coq.List(ts), "so_q", coq.List(qs))
+	return coq.Record("so_ok", coq.Bool(o.OK), "so_ts", coq.List(ts), "so_stale", coq.Bool(o.Stale), "so_q", coq.List(qs))
 }
 
 // ---------- generators ----------
@@ -590,6 +618,47 @@ func classifyHistory(hist []gOp) []string {
 type c03Input struct {
 	Driver string `json:"driver"`
 	Hist   []gOp  `json:"hist"`
+	// C04, > 0: a hub vertex with that many edges (half of them incoming) is deleted and the process dies before the k-th
+	// top-level write of the call, k = 1..4, each on a fresh store; observed: every key of each reopened store
+	Hub int `json:"hub,omitempty"`
+}
+
+// execHub: the raw keys of the store after each crash point (the evaluator checks them with keys_consistent)
+func execHub(driver string, n int) [][]string {
+	dumps := [][]string{}
+	for budget := 0; budget < 4; budget++ {
+		dir, _ := os.MkdirTemp("", "c04hub")
+		r := &graphRunner{driver: driver, dir: dir}
+		if err := r.open(); err != nil {
+			panic(err)
+		}
+		r.db.AddGraph("g1")
+		gi, _ := r.db.Graph("g1")
+		vs := []*gdbi.Vertex{gdbi.NewElementFromVertex(&gripql.Vertex{Gid: "hub", Label: "L1"})}
+		es := []*gdbi.Edge{}
+		for i := 0; i < n; i++ {
+			leaf := fmt.Sprintf("n%04d", i)
+			vs = append(vs, gdbi.NewElementFromVertex(&gripql.Vertex{Gid: leaf, Label: "L2"}))
+			e := &gripql.Edge{Gid: fmt.Sprintf("en%04d", i), Label: "L1", From: "hub", To: leaf}
+			if i%2 == 1 {
+				e.From, e.To = leaf, "hub"
+			}
+			es = append(es, gdbi.NewElementFromEdge(e))
+		}
+		// a few edges that do not touch the hub
+		es = append(es, gdbi.NewElementFromEdge(&gripql.Edge{Gid: "x1", Label: "L2", From: "n0000", To: "n0001"}))
+		gi.AddVertex(vs)
+		gi.AddEdge(es)
+		r.kv.budget, r.kv.used = int64(budget), 0
+		gi.DelVertex("hub")
+		r.kv.budget = -1
+		r.close()
+		r.open()
+		dumps = append(dumps, rawKeys(r.kv))
+		r.close()
+		os.RemoveAll(dir)
+	}
+	return dumps
 }
 
 func runC03(ctx *Ctx) error {
@@ -600,7 +669,7 @@ func runC03(ctx *Ctx) error {
 	ctx.HasKF = true
 	ctx.Scope = "N_scope"
 	isC04 := ctx.Prop == "C04"
-	ctx.Rule = "histories of AddGraph/DeleteGraph/AddVertex/AddEdge/BulkAdd/DelVertex/DelEdge over 2 graphs, 3 vertex ids, 3 edge ids, 2 labels, 3 data values + invalid variants (blank id/label/endpoint, reserved property name, invalid graph name), all read APIs observed after every step; C04 adds close/reopen at random positions and a crash before each top-level write of the last call; non-trivial = history of >= 3 steps with at least one successful edge write; distinct by history"
+	ctx.Rule = "histories of AddGraph/DeleteGraph/AddVertex/AddEdge/BulkAdd/DelVertex/DelEdge over 2 graphs, 3 vertex ids, 3 edge ids, 2 labels, 3 data values + invalid variants (blank id/label/endpoint, reserved property name, invalid graph name), all read APIs observed after every step; C04 adds close/reopen at random positions and a crash before each top-level write of the last call, and, beyond the three-id universe, the deletion of a hub vertex with 400 (and 40) edges in both directions with the process dying before its k-th top-level write (k = 1..4): every key of the reopened store is handed to the evaluator, which checks that every by-source / by-destination entry has its edge record and every edge record both entries; non-trivial = history of >= 3 steps with at least one successful edge write; distinct by history"
 	var inputs []c03Input
 	if ctx.Replay != nil {
 		var in c03Input
@@ -730,7 +799,27 @@ func runC03(ctx *Ctx) error {
 			}
 		}
 	}
+	if isC04 && ctx.Replay == nil {
+		inputs = append(inputs, c03Input{Driver: "badger", Hub: 400}, c03Input{Driver: "badger", Hub: 40})
+	}
 	for _, in := range inputs {
+		if in.Hub > 0 {
+			dumps := execHub(in.Driver, in.Hub)
+			ds := make([]string, len(dumps))
+			sizes := []int{}
+			for i, d := range dumps {
+				ks := make([]string, len(d))
+				for j, k := range d {
+					ks[j] = bcoq(bstr(k))
+				}
+				ds[i] = coq.List(ks)
+				sizes = append(sizes, len(d))
+			}
+			key, _ := json.Marshal(in)
+			ctx.Add(Case{Input: in, Observed: map[string]interface{}{"keys_after_each_crash_point": sizes}, Coq: coq.Record("chist", "[]", "cobs", "[]", "ckeys", coq.List(ds)),
+				Nontrivial: true, Key: string(key), Tags: []string{"kind=hub-delete-crash", "driver=" + in.Driver}})
+			continue
+		}
 		obs := execHistory(in.Driver, in.Hist)
 		hs := make([]string, len(in.Hist))
 		edgeWrites := 0
@@ -745,7 +834,7 @@ func runC03(ctx *Ctx) error {
 			os[i] = obsCoq(o)
 		}
 		key, _ := json.Marshal(in.Hist)
-		ctx.Add(Case{Input: in, Observed: summarizeObs(obs), Coq: coq.Record("chist", coq.List(hs), "cobs", coq.List(os)),
+		ctx.Add(Case{Input: in, Observed: summarizeObs(obs), Coq: coq.Record("chist", coq.List(hs), "cobs", coq.List(os), "ckeys", "[]"),
 			Nontrivial: len(in.Hist) >= 3 && edgeWrites > 0, Key: string(key),
 			Tags: append(classifyHistory(in.Hist), "driver="+in.Driver, "len="+bucket(len(in.Hist)))})
 	}
@@ -762,7 +851,7 @@ func summarizeObs(obs []stepObs) interface{} {
 				ne[fmt.Sprintf("q%d", i)] = q
 			}
 		}
-		out = append(out, map[string]interface{}{"ok": o.OK, "ts": o.TS, "nonempty": ne})
+		out = append(out, map[string]interface{}{"ok": o.OK, "ts": o.TS, "stale_stamp": o.Stale, "nonempty": ne})
 	}
 	return out
 }
